@@ -134,7 +134,11 @@ def run(prop, tier, replay=None):
         if len(parts) >= 3:
             # a hang that depends on a narrow interleaving does not come back every time: several fresh attempts per case
             confirms += [mk(parts[0], int(parts[2]), 1, 900 + k) for k in range(8)]
-    vlib.run_pool(confirms)
+    for i in range(0, len(confirms), 16):  # stop as soon as one attempt hangs again
+        vlib.run_pool(confirms[i:i + 16])
+        if any(c.rc == 5 for c in confirms[i:i + 16]):
+            confirms = confirms[:i + 16]
+            break
     if hung:
         chk.notes.append("%d hung case(s) re-run in %d fresh processes: %d hung again" % (
             min(len(hung), 4), len(confirms), sum(1 for c in confirms if c.rc == 5)))
